@@ -158,6 +158,7 @@ type runner struct {
 	wr     [][]written      // per mailbox, per handle
 	mode   string
 	nadds  int
+	held   []heldList
 	target string // deliver mode: mailbox the BeforeMessageStored listener routes to
 }
 
@@ -404,7 +405,7 @@ func (r *runner) op(o string) string {
 	kind := o[0]
 	rest := strings.Split(o[1:], ":")
 	mb := 0
-	if kind != 'v' && kind != 'w' {
+	if kind != 'v' && kind != 'w' && kind != 'c' {
 		mb = vh.AtoI(rest[0])
 	}
 	var tok string
@@ -433,23 +434,28 @@ func (r *runner) op(o string) string {
 	case 'p':
 		tok = "U" + errClass(r.store.PurgeMessages(r.names[mb]))
 	case 'v':
+		// The visitor RETAINS what it is handed; everything (Mailbox, ID, Size, Seen, full Source) is read
+		// only after VisitMailboxes has returned, as a caller that collects messages does.
+		var kept [][]storage.Message
+		err := r.store.VisitMailboxes(func(ms []storage.Message) bool {
+			if len(ms) > 0 {
+				kept = append(kept, ms)
+			}
+			return true
+		})
 		groups := map[int]string{}
 		extra := ""
-		err := r.store.VisitMailboxes(func(ms []storage.Message) bool {
-			if len(ms) == 0 {
-				return true
-			}
+		for _, ms := range kept {
 			i, ok := r.nameI[ms[0].Mailbox()]
 			if !ok {
 				extra += ";?" + hex.EncodeToString([]byte(ms[0].Mailbox()))
-				return true
+				continue
 			}
 			if _, dup := groups[i]; dup {
 				extra += ";dup" + strconv.Itoa(i)
 			}
 			groups[i] = r.views(i, ms)
-			return true
-		})
+		}
 		var idx []int
 		for i := range groups {
 			idx = append(idx, i)
@@ -463,12 +469,70 @@ func (r *runner) op(o string) string {
 		if err != nil {
 			tok += ";" + errClass(err)
 		}
+	case 'h':
+		// GetMessages whose result is HELD by the caller (and printed like a listing now); the trailing
+		// operation c reads all held listings again after everything that happened since
+		ms, err := r.store.GetMessages(r.names[mb])
+		if err != nil {
+			tok = "L" + errClass(err)
+		} else {
+			tok = "L" + r.views(mb, ms)
+			r.held = append(r.held, heldList{mb, ms})
+		}
+	case 'c':
+		return r.checkHeld()
 	case 'w':
 		return r.visitStop(vh.AtoI(rest[0]), len(rest) > 1 && rest[1] == "1")
 	default:
 		tok = "BADOP"
 	}
 	return tok + r.evTokens(kind == 'p')
+}
+
+type heldList struct {
+	mb int
+	ms []storage.Message
+}
+
+// checkHeld is the trailing operation c: every listing handed out by an h operation is read again NOW,
+// after all later operations (on other mailboxes and on its own): per message
+// <mailbox index from Mailbox()>.<handle>.<Size()>.<content>, content = the tag if the message is still
+// in its mailbox and Source() yields exactly what was written, X if it is there but reads back
+// differently, - if it has left its mailbox since (the file store has deleted its body; not read).
+// The seen flag is not printed: the memory store hands out its live message objects, a later MarkSeen
+// shows through (not claimed either way).
+func (r *runner) checkHeld() string {
+	var lists []string
+	for _, h := range r.held {
+		var toks []string
+		for _, m := range h.ms {
+			mbi, ok := r.nameI[m.Mailbox()]
+			if !ok {
+				toks = append(toks, "?"+hex.EncodeToString([]byte(m.Mailbox())))
+				continue
+			}
+			k, okk := r.handle[mbi][m.ID()]
+			if !okk {
+				toks = append(toks, fmt.Sprintf("%d.?%s", mbi, hex.EncodeToString([]byte(m.ID()))))
+				continue
+			}
+			c := "-"
+			if _, err := r.store.GetMessage(r.names[mbi], m.ID()); err == nil {
+				w := r.wr[mbi][k]
+				c = "X"
+				if rc, e := m.Source(); e == nil {
+					got, _ := io.ReadAll(rc)
+					rc.Close()
+					if bytes.Equal(got, w.body) {
+						c = w.subject[1:]
+					}
+				}
+			}
+			toks = append(toks, fmt.Sprintf("%d.%d.%d.%s", mbi, k, m.Size(), c))
+		}
+		lists = append(lists, strings.Join(toks, ","))
+	}
+	return "C" + strings.Join(lists, ";")
 }
 
 // visitStop is the operation w<k>:<mut> (last operation of a history): VisitMailboxes with a visitor
